@@ -218,6 +218,7 @@ func TestVerifC10(t *testing.T) {
 			depth = 4
 		}
 		g.enumerate(depth)
+		g.tokenItems()
 		sample := newVrng(env.seed, 77)
 		for _, it := range g.items {
 			home := map[int]bool{}
@@ -255,6 +256,16 @@ func TestVerifC10(t *testing.T) {
 			it, st := c10RandomItem(newVrng(env.seed, uint64(1000+i)))
 			add(st, c10Step{K: "doc", Doc: it.doc, Class: it.class}, false)
 			hist["random_steps"]++
+		}
+		// seeded protocol 2.0 hellos before hello: good tokens and mutations of good tokens
+		nt := 60
+		if env.thorough() {
+			nt = 1200
+		}
+		for i := 0; i < nt; i++ {
+			it := c10RandomTokenItem(newVrng(env.seed, uint64(500000+i)))
+			add(0, c10Step{K: "doc", Doc: it.doc, Class: it.class}, false)
+			hist["random_token_steps"]++
 		}
 	}
 	if env.replay == "" {
